@@ -72,6 +72,8 @@ func (v *PointerSchema) process(ctx *p.SchemaCtx) {
 			return
 		}
 		ctx.Data = val
+		// the pointed-to schema receives the decoded data. Not the factory (which can only be called once)
+		subCtx.Data = val
 	}
 	// End of messy code
 
